@@ -354,6 +354,16 @@ def file_t2data(ctx, rng, v, i):
     dat.grid.add_block(t2g.t2block('  a 1', 1.5e3 if slot != 3 else v, rt, centre=[1., 2., -3.]))
     dat.grid.add_block(t2g.t2block('  a 2', 2.5e3, rt, centre=[1., 2., -13.]))
     dat.grid.add_connection(t2g.t2connection([dat.grid.block['  a 1'], dat.grid.block['  a 2']], 3, [5., 5.], 100., -1.0))
+    # records with an ABSENT value in a position that is not the last: it is written blank and must come back
+    # as absent in the same position (the values after it stay in their own columns)
+    absent_at = i % 3
+    inc_vals = [1.0e5 + i, 20.5, 0.25, 1.5e-3][:3 + (i % 2)]
+    inc_vals[absent_at] = None
+    dom_vals = [2.0e5, 30.5, 0.5]
+    dom_vals[(absent_at + 1) % 2] = None
+    dat.incon = {'  a 2': [None, list(inc_vals)]}
+    dat.indom = {'rock1': list(dom_vals)}
+    case['absent'] = {'incon': list(inc_vals), 'indom': list(dom_vals)}
     fn = os.path.join(ctx.tmp, 'c02_%d.dat' % i)
     ctx.evaluated()
     ctx.case(case, nontrivial=True)
@@ -385,6 +395,23 @@ def file_t2data(ctx, rng, v, i):
         chk('volume', dat.grid.blocklist[0].volume, back.grid.blocklist[0].volume, slot == 3)
         if back.grid.blocklist[0].rocktype.name != 'rock1':
             ctx.violation('file:t2data-neighbour-corrupted', 'block rock type read as %r' % back.grid.blocklist[0].rocktype.name, case)
+
+        def same_positions(wrote, read):
+            w = list(wrote)
+            while w and w[-1] is None:
+                w.pop()
+            r = list(read)
+            while r and r[-1] is None:
+                r.pop()
+            return len(w) == len(r) and all((a is None and b is None) or (a is not None and b is not None and float('%20.13e' % a) == b)
+                                            for a, b in zip(w, r))
+        ctx.count('records_with_absent_middle_value', 2)
+        got = back.incon.get('  a 2')
+        if got is None or not same_positions(inc_vals, got[1]):
+            ctx.violation('file:t2data-absent-value-moved:incon', 'INCON variables wrote %r read %r' % (inc_vals, got and got[1]), case)
+        gotd = back.indom.get('rock1')
+        if gotd is None or not same_positions(dom_vals, gotd):
+            ctx.violation('file:t2data-absent-value-moved:indom', 'INDOM variables wrote %r read %r' % (dom_vals, gotd), case)
     ctx.see('file_outcome', 't2data-roundtrip')
 
 
